@@ -547,6 +547,8 @@ package impl
 //@   ensures len(input) == 1 && len(args) == 0 ==> err == nil
 //@   ensures err == nil ==> len(res) <= 1 && (len(res) == 1 ==> isKind(1, res[0]))
 //@   ensures len(input) == 1 && len(args) == 0 && fromOk(input[0]) && isKind(1, fromS(input[0])) ==> err == nil && len(res) == 1 && res[0] == fromS(input[0])
+//@   ensures len(input) == 1 && len(args) == 0 && fromOk(input[0]) && isStringV(fromS(input[0])) && parseOkK(1, unbox(fromS(input[0]), system.String)) ==> len(res) == 1 && res[0] == parseValK(1, unbox(fromS(input[0]), system.String))
+//@   ensures len(input) == 1 && len(args) == 0 && fromOk(input[0]) && isStringV(fromS(input[0])) && !parseOkK(1, unbox(fromS(input[0]), system.String)) && err == nil ==> len(res) == 0
 //@   assigns nothing
 //
 //@ func ConvertsToInteger(ctx, input, args) (res, err)
@@ -564,6 +566,8 @@ package impl
 //@   ensures len(input) == 1 && len(args) == 0 ==> err == nil
 //@   ensures err == nil ==> len(res) <= 1 && (len(res) == 1 ==> isKind(2, res[0]))
 //@   ensures len(input) == 1 && len(args) == 0 && fromOk(input[0]) && isKind(2, fromS(input[0])) ==> err == nil && len(res) == 1 && res[0] == fromS(input[0])
+//@   ensures len(input) == 1 && len(args) == 0 && fromOk(input[0]) && isStringV(fromS(input[0])) && parseOkK(2, unbox(fromS(input[0]), system.String)) ==> len(res) == 1 && res[0] == parseValK(2, unbox(fromS(input[0]), system.String))
+//@   ensures len(input) == 1 && len(args) == 0 && fromOk(input[0]) && isStringV(fromS(input[0])) && !parseOkK(2, unbox(fromS(input[0]), system.String)) && err == nil ==> len(res) == 0
 //@   assigns nothing
 //
 //@ func ConvertsToDecimal(ctx, input, args) (res, err)
@@ -599,6 +603,8 @@ package impl
 //@   ensures len(input) == 1 && len(args) == 0 ==> err == nil
 //@   ensures err == nil ==> len(res) <= 1 && (len(res) == 1 ==> isKind(4, res[0]))
 //@   ensures len(input) == 1 && len(args) == 0 && fromOk(input[0]) && isKind(4, fromS(input[0])) ==> err == nil && len(res) == 1 && res[0] == fromS(input[0])
+//@   ensures len(input) == 1 && len(args) == 0 && fromOk(input[0]) && isStringV(fromS(input[0])) && parseOkK(4, unbox(fromS(input[0]), system.String)) ==> len(res) == 1 && res[0] == parseValK(4, unbox(fromS(input[0]), system.String))
+//@   ensures len(input) == 1 && len(args) == 0 && fromOk(input[0]) && isStringV(fromS(input[0])) && !parseOkK(4, unbox(fromS(input[0]), system.String)) && err == nil ==> len(res) == 0
 //@   assigns nothing
 //
 //@ func ConvertsToDate(ctx, input, args) (res, err)
@@ -616,6 +622,8 @@ package impl
 //@   ensures len(input) == 1 && len(args) == 0 ==> err == nil
 //@   ensures err == nil ==> len(res) <= 1 && (len(res) == 1 ==> isKind(5, res[0]))
 //@   ensures len(input) == 1 && len(args) == 0 && fromOk(input[0]) && isKind(5, fromS(input[0])) ==> err == nil && len(res) == 1 && res[0] == fromS(input[0])
+//@   ensures len(input) == 1 && len(args) == 0 && fromOk(input[0]) && isStringV(fromS(input[0])) && parseOkK(5, unbox(fromS(input[0]), system.String)) ==> len(res) == 1 && res[0] == parseValK(5, unbox(fromS(input[0]), system.String))
+//@   ensures len(input) == 1 && len(args) == 0 && fromOk(input[0]) && isStringV(fromS(input[0])) && !parseOkK(5, unbox(fromS(input[0]), system.String)) && err == nil ==> len(res) == 0
 //@   assigns nothing
 //
 //@ func ConvertsToDateTime(ctx, input, args) (res, err)
@@ -633,6 +641,8 @@ package impl
 //@   ensures len(input) == 1 && len(args) == 0 ==> err == nil
 //@   ensures err == nil ==> len(res) <= 1 && (len(res) == 1 ==> isKind(6, res[0]))
 //@   ensures len(input) == 1 && len(args) == 0 && fromOk(input[0]) && isKind(6, fromS(input[0])) ==> err == nil && len(res) == 1 && res[0] == fromS(input[0])
+//@   ensures len(input) == 1 && len(args) == 0 && fromOk(input[0]) && isStringV(fromS(input[0])) && parseOkK(6, unbox(fromS(input[0]), system.String)) ==> len(res) == 1 && res[0] == parseValK(6, unbox(fromS(input[0]), system.String))
+//@   ensures len(input) == 1 && len(args) == 0 && fromOk(input[0]) && isStringV(fromS(input[0])) && !parseOkK(6, unbox(fromS(input[0]), system.String)) && err == nil ==> len(res) == 0
 //@   assigns nothing
 //
 //@ func ConvertsToTime(ctx, input, args) (res, err)
